@@ -459,7 +459,10 @@ impl GenericsAnalyzer {
     /// lifetime parameters: those stay on the method, and so must the predicate.
     fn lift_where_predicate(&mut self, predicate: &syn::WherePredicate, generics: &syn::Generics) {
         if !mentions_lifetime_param(quote::ToTokens::to_token_stream(predicate), generics) {
-            self.trait_generics.where_predicates.push(predicate.clone());
+            // (its relaxed bounds have moved to where the parameter is declared)
+            if let Some(predicate) = without_relaxed_bounds(predicate) {
+                self.trait_generics.where_predicates.push(predicate);
+            }
         }
     }
 
@@ -546,11 +549,64 @@ fn lifted_param(
                         .unwrap_or(false)
             })
             .collect();
+        // A relaxed bound (`?Sized`) is only allowed where the parameter is declared:
+        // one that the fn writes in its where clause moves there.
+        if relaxed_in_where_clause(&type_param.ident, generics)
+            && !type_param.bounds.iter().any(is_relaxed_bound)
+        {
+            type_param.bounds.push(syn::parse_quote! { ?Sized });
+        }
         if type_param.bounds.is_empty() {
             type_param.colon_token = None;
+        } else {
+            type_param.colon_token.get_or_insert_with(Default::default);
         }
     }
     param
+}
+
+pub(crate) fn is_relaxed_bound(bound: &syn::TypeParamBound) -> bool {
+    matches!(
+        bound,
+        syn::TypeParamBound::Trait(syn::TraitBound {
+            modifier: syn::TraitBoundModifier::Maybe(_),
+            ..
+        })
+    )
+}
+
+/// Whether the where clause has a `T: ?Sized` for this type parameter
+fn relaxed_in_where_clause(ident: &syn::Ident, generics: &syn::Generics) -> bool {
+    generics
+        .where_clause
+        .iter()
+        .flat_map(|where_clause| where_clause.predicates.iter())
+        .any(|predicate| match predicate {
+            syn::WherePredicate::Type(predicate) => {
+                matches!(crate::signature::peel_type(&predicate.bounded_ty), syn::Type::Path(path) if path.path.is_ident(ident))
+                    && predicate.bounds.iter().any(is_relaxed_bound)
+            }
+            _ => false,
+        })
+}
+
+/// A where predicate without its relaxed bounds (None if nothing is left of it)
+pub(crate) fn without_relaxed_bounds(predicate: &syn::WherePredicate) -> Option<syn::WherePredicate> {
+    match predicate {
+        syn::WherePredicate::Type(predicate_type) if predicate_type.bounds.iter().any(is_relaxed_bound) => {
+            let mut predicate_type = predicate_type.clone();
+            predicate_type.bounds = std::mem::take(&mut predicate_type.bounds)
+                .into_iter()
+                .filter(|bound| !is_relaxed_bound(bound))
+                .collect();
+            if predicate_type.bounds.is_empty() {
+                None
+            } else {
+                Some(syn::WherePredicate::Type(predicate_type))
+            }
+        }
+        other => Some(other.clone()),
+    }
 }
 
 fn extract_trait_bounds(
